@@ -9,6 +9,9 @@ def main(tier, args):
     cmds = [("cabinet/%d" % k, [exe, "cabinet", str(dc), "%d/%d" % (k, nparts)]) for k in range(nparts)]
     cmds += [("pool/keep%s" % k, [exe, "pool", str(dp), k]) for k in ("0", "1", "2", "max")]
     cmds += [("fd/%s" % m, [exe, "fd", str(df), m]) for m in fdcfg]
+    # first four: one of each kind (their @SAMPLE lines are the ones kept in the evidence) and the longest-running ones
+    first = ["cabinet/0", "pool/keepmax", "fd/" + fdcfg[-1], "pool/keep2"]
+    cmds.sort(key=lambda c: first.index(c[0]) if c[0] in first else len(first))
     only = getattr(args, "only", None)
     if only:
         cmds = [c for c in cmds if c[0].startswith(only)]
